@@ -110,6 +110,16 @@ def decodeTxtUnique (txt : BList) : Res (List TProp) :=
 def lookup (ps : List TProp) (key : BList) : Option TProp :=
   ps.find? (fun p => lower p.key == lower key)
 
+/-- `TxtProperties::get_property_val`: `none` = no such key, `some none` = key without a value,
+    `some (some v)` = the value bytes -/
+def getVal (ps : List TProp) (key : BList) : Option (Option BList) :=
+  (lookup ps key).map (·.val)
+
+/-- `TxtProperties::get_property_val_str` on ASCII values (the bytes of the string returned):
+    `none` = no such key; a key without a value is PRESENT and reads as the empty string -/
+def getValStr (ps : List TProp) (key : BList) : Option BList :=
+  (lookup ps key).map fun p => p.val.getD []
+
 /-- `ServiceInfo::new(...)` followed by `generate_txt()` -/
 def create (ps : List TProp) : Res BList :=
   if accepted ps then encodeTxt ps else .err
